@@ -319,6 +319,7 @@ VARIANTS = {
         b"\x13\x03": get_mga_dict,  # MGA BDS
         b"\x13\x05": get_mga_dict,  # MGA QZSS
         b"\x13\x06": get_mga_dict,  # MGA GLO
+        b"\x13\x20": get_mga_dict,  # MGA ANO
         b"\x13\x21": get_mga_dict,  # MGA FLASH
         b"\x13\x40": get_mga_dict,  # MGA INI
         b"\x02\x72": get_rxmpmp_dict,  # RXM-PMP
